@@ -23,3 +23,6 @@ import SoxrModel.Properties.C17
 #print axioms Soxr.C17.table_use_requires_role
 #print axioms Soxr.C17.reader_use_no_rebuild
 #print axioms Soxr.C17.writer_use_exclusive
+#print axioms Soxr.C17.both_caches_good
+#print axioms Soxr.C17.both_caches_good_partial
+#print axioms Soxr.C17.shared_lock_breaks_exclusion
